@@ -227,7 +227,7 @@ func init() {
 	registry["C05"] = &Property{
 		Quick:    []HarnessSpec{{Name: "VC05_DERvsReference", Params: map[string]int{"vsymC05Content": 140, "vsymC05Serial": 2, "vsymC05RawLens": 2}, MaxDecisions: 2000, MaxPaths: 400000, TimeoutSec: 400, NeedReach: []string{"end"}}},
 		Thorough: []HarnessSpec{{Name: "VC05_DERvsReference", Params: map[string]int{"vsymC05Content": 700, "vsymC05Serial": 4, "vsymC05RawLens": 3}, MaxDecisions: 4000, MaxPaths: 4000000, TimeoutSec: 7200, NeedReach: []string{"end"}}},
-		Bounds: []string{"content: every length 0..140 (quick) / 0..700 (thorough), bytes symbolic; content types data, SpcIndirectDataContent, 1.2.3.4; certificate bytes of 5/140 (+300 thorough) symbolic bytes; issuer 3 symbolic bytes (copied verbatim); serial magnitudes of 1, 2 (+8, 20 thorough) symbolic bytes incl. high bit set; clock symbolic (2001..2049)",
+		Bounds: []string{"content: every length 0..140 (quick) / 0..700 (thorough), bytes symbolic; content types data, SpcIndirectDataContent, 1.2.3.4; certificate bytes of 5/140 (+300 thorough) symbolic bytes; issuer 3 symbolic bytes (copied verbatim); serial magnitudes of 1 and 20 (+2, 8 thorough) symbolic bytes incl. high bit set; the output is also parsed and verified by the library itself; clock symbolic (2001..2049)",
 			"oracle: reference RFC 2315 / X.690 encoder written in the harness (minimal definite lengths, INTEGER with sign octet, attribute SET = contentType, signingTime, messageDigest = SHA-256(content), signature = Sign(key, SHA-256(SET))): output compared byte for byte"},
 		Outside: []string{"that OpenSSL / other implementations agree with this reading of RFC 2315 (they are not Go code the engine can execute)", "contents longer than the bound (all DER length classes up to 0x82 are inside the thorough bound)", "RSA key sizes other than 2048 (the signature is an opaque 256-byte string in the model)", "clock in 2050 or later: the attribute encoder panics (UTCTime range) — assumed away, see DESIGN.md"},
 		Assumptions: append([]string{"signature model: Sign(key, digest) is deterministic and injective per key; SHA-256 as in C01", "time model: calendar fields are uninterpreted functions of the instant, years 1950..2049"}, commonAssumptions...),
@@ -277,7 +277,7 @@ func init() {
 			"certificate table walk: fully symbolic table of 0..24 (quick) / 0..48 bytes; PKCS#7: fully symbolic DER of 0..12 (quick) / 0..14 bytes, a library-produced blob with one byte (stride 64 quick / 8 thorough) taking every value, and a signer entry without signed attributes",
 			"obligations on every path: no panic, no log.Fatal/os.Exit, every byte allocation <= 8*len + 16 MiB (image) / 64 KiB (others), termination within 3000 symbolic decisions and 20M steps; violations are replayed natively (panic / exit / measured allocation above 64 MiB / time-out)"},
 		Outside: []string{"several header fields changed at once, images other than the fixture, fully symbolic images", "Verify on mutated images (C02 covers single-byte mutants of a signed image)", "wall-clock time and resident memory as measured quantities", "longer symbolic DER"},
-		Assumptions: commonAssumptions,
+		Assumptions: append([]string{"debug/pe.readCOFFSymbols reads auxiliary symbol records through an unsafe pointer cast; the model reads them into a scratch record (NewFile never uses their content)"}, commonAssumptions...),
 	}
 	registry["C16"] = &Property{
 		Quick:    []HarnessSpec{{Name: "VC16_ThirdParty", NeedReach: []string{"end"}}, {Name: "VC16_Fixtures", NeedReach: []string{"end"}}},
